@@ -130,6 +130,10 @@ def make_table_forecaster():
             self._is_fitted = True
             return self
 
+        def update(self, y, X=None, update_params=True):
+            LOG.setdefault(self.tag, []).append({"ev": "update", "table": list(self.table), "upd": bool(update_params)})
+            return super(TableForecaster, self).update(y, X, update_params=update_params)
+
         def _predict(self, fh, X=None, return_pred_int=False, alpha=0.05):
             idx = fh.to_absolute(self.cutoff).to_pandas()
             F = len(self.table)
